@@ -44,6 +44,13 @@ def build(S):
                                     subclass=flodym.SimpleFlowDrivenStock, time_letter="t")
              for s in sorted(S["stocks"], key=lambda x: x["id"])]
     stocks = flodym.make_empty_stocks(stock_definitions=sdefs, processes=procs, dims=DIMS)
+    if len(S["flows"]) % 2:
+        # every second system: stocks assembled by the user from own arrays (which carry the default name "unnamed")
+        for s in S["stocks"]:
+            sd = DIMS.get_subset(tuple(s["dims"]))
+            stocks[s["name"]] = flodym.SimpleFlowDrivenStock(
+                dims=sd, name=s["name"], process=(procs[s["process"]] if s["process"] else None), time_letter="t",
+                stock=flodym.StockArray(dims=sd), inflow=flodym.StockArray(dims=sd), outflow=flodym.StockArray(dims=sd))
     mfa = flodym.MFASystem(dims=DIMS, parameters={}, processes=procs, flows=flows, stocks=stocks)
     for f in S["flows"]:
         fill(mfa.flows[f["name"]], f["dims"], f["coef"], S["g"])
